@@ -103,7 +103,7 @@ class LineObserver:
 
     def report(self) -> dict:
         return {
-            label: {"seen": sorted(self.seen[label] & self.lines[label]), "total": len(self.lines[label])}
+            label: {"seen": sorted(self.seen[label] & self.lines[label]), "total": len(self.lines[label]), "lines": sorted(self.lines[label])}
             for label in self.lines
         }
 
@@ -112,10 +112,11 @@ def merge_reports(reports: list[dict]) -> dict:
     out: dict[str, dict] = {}
     for r in reports:
         for label, v in r.items():
-            o = out.setdefault(label, {"seen": set(), "total": v["total"]})
+            o = out.setdefault(label, {"seen": set(), "total": v["total"], "lines": set()})
             o["seen"].update(v["seen"])
+            o["lines"].update(v.get("lines", []))
             o["total"] = max(o["total"], v["total"])
     return {
-        k: {"lines_seen": len(v["seen"]), "lines_total": v["total"], "seen": sorted(v["seen"])}
+        k: {"lines_seen": len(v["seen"]), "lines_total": v["total"], "seen": sorted(v["seen"]), "missed": sorted(v["lines"] - v["seen"])}
         for k, v in out.items()
     }
